@@ -12,9 +12,10 @@ let pr_enc (r : n list res) (size : n) = match r with
   | Ok e -> "OK " ^ hx e ^ " " ^ soi (ni size)
   | Absent -> "ABSENT" | Err -> "ERR" | Fault -> "FAULT"
 (* decoders: value string and number of consumed bytes *)
-let pr_dec inp (r : 'a res) (show : 'a -> string * n list) = match r with
+let pr_dec ?(abs="") inp (r : 'a res) (show : 'a -> string * n list) = match r with
   | Ok v -> let (s, rest) = show v in "OK " ^ s ^ " " ^ soi (llen inp - llen rest)
-  | Absent -> "ABSENT" | Err -> "ERR" | Fault -> "FAULT"
+  | Absent -> if abs = "" then "ABSENT" else "ABSENT " ^ abs
+  | Err -> "ERR" | Fault -> "FAULT"
 
 let switches = [
   ("oid_cap", { fixed with fx_oid_cap = false });
@@ -49,39 +50,39 @@ let handle ws = match ws with
   | ["typE"; tag; d] -> let t = n_of_int (int_of_string tag) and d = opt_hex d in
     pr_enc (type_to_der t d) (type_size t d)
   | ["typD"; tag; h] -> let i = bytes_of_hex h in
-    pr_dec i (type_from_der (n_of_int (int_of_string tag)) i) (fun (d, r) -> (hx d, r))
+    pr_dec ~abs:"d=NULL dlen=0" i (type_from_der (n_of_int (int_of_string tag)) i) (fun (d, r) -> (hx d, r))
   | ["netD"; tag; h] -> let i = bytes_of_hex h in
-    pr_dec i (nonempty_type_from_der (n_of_int (int_of_string tag)) i) (fun (d, r) -> (hx d, r))
+    pr_dec ~abs:"d=NULL dlen=0" i (nonempty_type_from_der (n_of_int (int_of_string tag)) i) (fun (d, r) -> (hx d, r))
   | ["anytD"; h] -> let i = bytes_of_hex h in
-    pr_dec i (any_type_from_der i) (fun ((t, d), r) -> (soi (ni t) ^ " " ^ hx d, r))
+    pr_dec ~abs:"tag=-1 d=NULL dlen=0" i (any_type_from_der i) (fun ((t, d), r) -> (soi (ni t) ^ " " ^ hx d, r))
   | ["anyD"; h] -> let i = bytes_of_hex h in
     pr_dec i (any_from_der i) (fun (a, r) -> (hx a, r))
   | ["boolE"; tag; v] -> let v = z_of_int (int_of_string v) in
     pr_enc (boolean_to_der (n_of_int (int_of_string tag)) v) (boolean_size v)
   | ["boolD"; tag; h] -> let i = bytes_of_hex h in
-    pr_dec i (boolean_from_der (n_of_int (int_of_string tag)) i) (fun (b, r) -> ((if b then "1" else "0"), r))
+    pr_dec ~abs:"val=-1" i (boolean_from_der (n_of_int (int_of_string tag)) i) (fun (b, r) -> ((if b then "1" else "0"), r))
   | ["intE"; tag; a] -> let a = opt_hex a in
     pr_enc (integer_to_der (n_of_int (int_of_string tag)) a) (integer_size a)
   | ["intD"; tag; h] -> let i = bytes_of_hex h in
-    pr_dec i (integer_from_der (n_of_int (int_of_string tag)) i) (fun (a, r) -> (hx a, r))
+    pr_dec ~abs:"a=NULL alen=0" i (integer_from_der (n_of_int (int_of_string tag)) i) (fun (a, r) -> (hx a, r))
   | ["i32E"; tag; a] -> let a = z_of_int (int_of_string a) in
     pr_enc (int_to_der (n_of_int (int_of_string tag)) a) (int_size a)
   | ["i32D"; tag; h] -> let i = bytes_of_hex h in
-    with_modes (fun m -> pr_dec i (int_from_der m (n_of_int (int_of_string tag)) i) (fun (a, r) -> (soi (ni a), r)))
+    with_modes (fun m -> pr_dec ~abs:"a=-1" i (int_from_der m (n_of_int (int_of_string tag)) i) (fun (a, r) -> (soi (ni a), r)))
   | ["bstrE"; tag; b; nbits] -> let b = opt_hex b and nb = n_of_int (int_of_string nbits) in
     pr_enc (bit_string_to_der (n_of_int (int_of_string tag)) b nb) (bit_string_size b nb)
   | ["bstrD"; tag; h] -> let i = bytes_of_hex h in
-    with_modes (fun m -> pr_dec i (bit_string_from_der m (n_of_int (int_of_string tag)) i)
+    with_modes (fun m -> pr_dec ~abs:"bits=NULL nbits=0" i (bit_string_from_der m (n_of_int (int_of_string tag)) i)
                   (fun ((b, nb), r) -> (hx b ^ " " ^ soi (ni nb), r)))
   | ["boctE"; tag; b] -> let b = opt_hex b in
     let nb = (match b with Some x -> n_of_int (8 * llen x) | None -> N0) in
     pr_enc (bit_octets_to_der (n_of_int (int_of_string tag)) b) (bit_string_size b nb)
   | ["boctD"; tag; h] -> let i = bytes_of_hex h in
-    with_modes (fun m -> pr_dec i (bit_octets_from_der m (n_of_int (int_of_string tag)) i) (fun (b, r) -> (hx b, r)))
+    with_modes (fun m -> pr_dec ~abs:"octs=NULL nocts=0" i (bit_octets_from_der m (n_of_int (int_of_string tag)) i) (fun (b, r) -> (hx b, r)))
   | ["bitsE"; tag; v] -> let v = z_of_int (int_of_string v) in
     pr_enc (bits_to_der (n_of_int (int_of_string tag)) v) (bits_size v)
   | ["bitsD"; tag; h] -> let i = bytes_of_hex h in
-    with_modes (fun m -> pr_dec i (bits_from_der m (n_of_int (int_of_string tag)) i) (fun (v, r) -> (soi (ni v), r)))
+    with_modes (fun m -> pr_dec ~abs:"bits=-1" i (bits_from_der m (n_of_int (int_of_string tag)) i) (fun (v, r) -> (soi (ni v), r)))
   | ["nullE"] -> "OK " ^ hx null_to_der ^ " 2"
   | ["nullD"; h] -> let i = bytes_of_hex h in pr_dec i (null_from_der i) (fun r -> ("-", r))
   | ["oidE"; ns] -> let ns = nodes_of ns in
@@ -94,19 +95,19 @@ let handle ws = match ws with
     let t = n_of_int (int_of_string tag) in
     with_modes (fun m -> pr_enc (oid_to_der m t ns) (oid_size m ns))
   | ["oidderD"; tag; h] -> let i = bytes_of_hex h in
-    with_modes (fun m -> pr_dec i (oid_from_der m (n_of_int 32) (n_of_int (int_of_string tag)) i)
+    with_modes (fun m -> pr_dec ~abs:"cnt=0" i (oid_from_der m (n_of_int 32) (n_of_int (int_of_string tag)) i)
                   (fun (ns, r) -> (show_nodes ns, r)))
   | ["seqintE"; l] -> let l = List.map z_of_int (ints_of l) in
     pr_enc (seq_of_int_to_der l) (seq_of_int_size l)
   | ["seqintD"; mx; h] -> let i = bytes_of_hex h and mx = n_of_int (int_of_string mx) in
-    with_modes (fun m -> pr_dec i (seq_of_int_from_der m mx mx i)
+    with_modes (fun m -> pr_dec ~abs:"cnt=0" i (seq_of_int_from_der m mx mx i)
                   (fun (ns, r) -> ((if ns = [] then "." else String.concat "," (List.map (fun x -> soi (ni x)) ns)), r)))
   | ["isstr"; kind; h] -> let a = bytes_of_hex h in
     with_modes (fun m -> if str_valid m kind a then "1" else "0")
   | ["strE"; kind; tag; d] -> let d = opt_hex d and t = n_of_int (int_of_string tag) in
     with_modes (fun m -> pr_enc (string_to_der (str_valid m kind) t d) (type_size t d))
   | ["strD"; kind; tag; h] -> let i = bytes_of_hex h in
-    with_modes (fun m -> pr_dec i (string_from_der (str_valid m kind) (n_of_int (int_of_string tag)) i) (fun (d, r) -> (hx d, r)))
+    with_modes (fun m -> pr_dec ~abs:"d=NULL dlen=0" i (string_from_der (str_valid m kind) (n_of_int (int_of_string tag)) i) (fun (d, r) -> (hx d, r)))
   | ["sigE"; r; s] -> let r = bytes_of_hex r and s = bytes_of_hex s in
     pr_enc (sm2_sig_to_der r s) (sm2_sig_size r s)
   | ["sigD"; h] -> let i = bytes_of_hex h in
@@ -146,7 +147,92 @@ let handle ws = match ws with
     let t = if t = "-1" then None else Some (n_of_int (int_of_string t)) in
     pr_enc (time_to_der (utc = "1") (n_of_int (int_of_string tag)) t) (time_size (utc = "1") t)
   | ["timeD"; utc; tag; h] -> let i = bytes_of_hex h in
-    pr_dec i (time_from_der (utc = "1") (n_of_int (int_of_string tag)) i) (fun (t, r) -> (soi (ni t), r))
+    pr_dec ~abs:"t=-1" i (time_from_der (utc = "1") (n_of_int (int_of_string tag)) i) (fun (t, r) -> (soi (ni t), r))
+
+  (* ---- composite objects (coq/Codec/Pkcs.v, Pem.v).  Hints: H=<d>:<xy>,... ([d]G) and P=<65 octets>:<0|1>,... *)
+  | op :: args when List.mem op ["curveE";"curveD";"pkalgE";"pkalgD";"sm2algE";"sm2algD";"encalgE";"encalgD";"p2eE";"p2eD";"prfE";"prfD";
+                                 "kdfpE";"kdfpD";"kdfaE";"kdfaD";"p2pE";"p2pD";"p2aE";"p2aD";"p8eE";"p8eD";"ctE";"ctD";"pubE";"pubD";"pubiE";"pubiD";
+                                 "privE";"privD";"p8E";"p8D";"p8seal";"p8sealraw";"p8open";"pemW";"pemR"] ->
+    let zi x = z_of_int (int_of_string x) and zs z = soi (int_of_z z) in
+    let hints pre = List.concat (List.map (fun a ->
+        if String.length a > 2 && String.sub a 0 2 = pre then
+          List.map (fun kv -> match split_on ':' kv with [k; v] -> (k, v) | _ -> failwith "hint") (split_on ',' (String.sub a 2 (String.length a - 2)))
+        else []) args) in
+    let hH = hints "H=" and hP = hints "P=" and hK = hints "K=" in
+    (* inside an encrypted key the generator cannot see a tampered scalar / point: an unknown scalar has an unknown
+       public key (never equal to the embedded one), an unknown point is taken as invalid - either way the key is refused *)
+    let lenient = (op = "p8open") in
+    let pub_of d = (match List.assoc_opt (hx d) hH with Some v -> bytes_of_hex v | None -> if lenient then [] else failwith ("NOHINT-pub " ^ hx d)) in
+    let pt_ok o = (match List.assoc_opt (hx o) hP with Some v -> v = "1" | None -> if lenient then false else failwith ("NOHINT-pt " ^ hx o)) in
+    let kdf pass salt iter = (match List.assoc_opt (hx pass ^ "/" ^ hx salt ^ "/" ^ zs iter) hK with Some v -> bytes_of_hex v | None -> kdf_sm3 pass salt iter) in
+    let args = List.filter (fun a -> not (String.length a > 2 && a.[1] = '=')) args in
+    let enc r = (match r with Ok e -> "OK " ^ hx e ^ " " ^ soi (llen e) | Absent -> "ABSENT" | Err -> "ERR" | Fault -> "FAULT") in
+    let show_p (p : pbes2) full = hx p.p_salt ^ " " ^ zs p.p_iter ^ " " ^ zs p.p_keylen ^ " " ^ zs p.p_prf ^ (if full then " " ^ zs p.p_cipher ^ " " ^ hx p.p_iv else "") in
+    let attrs_s a = (match a with None -> "NULL" | Some x -> hx x) in
+    (match op, args with
+     | "curveE", [id] -> enc (curve_to_der (zi id))
+     | "curveD", [h] -> let i = bytes_of_hex h in pr_dec ~abs:"oid=-1" i (curve_from_der i) (fun (id, r) -> (zs id, r))
+     | "pkalgE", [id; par] -> enc (pk_algor_to_der (zi id) (zi par))
+     | "pkalgD", [h] -> let i = bytes_of_hex h in pr_dec i (pk_algor_from_der i) (fun ((id, par), r) -> (zs id ^ " " ^ zs par, r))
+     | "sm2algE", [] -> enc sm2_algor_to_der
+     | "sm2algD", [h] -> let i = bytes_of_hex h in pr_dec i (sm2_algor_from_der i) (fun r -> ("-", r))
+     | "encalgE", [id; iv] -> enc (enc_algor_to_der (zi id) (bytes_of_hex iv))
+     | "encalgD", [h] -> let i = bytes_of_hex h in pr_dec ~abs:"oid=0 iv=NULL ivlen=0" i (enc_algor_from_der i) (fun ((id, iv), r) -> (zs id ^ " " ^ hx iv, r))
+     | "p2eE", [id; iv] -> enc (pbes2_enc_algor_to_der (zi id) (bytes_of_hex iv))
+     | "p2eD", [h] -> let i = bytes_of_hex h in pr_dec ~abs:"oid=0 iv=NULL ivlen=0" i (pbes2_enc_algor_from_der i) (fun ((id, iv), r) -> (zs id ^ " " ^ hx iv, r))
+     | "prfE", [prf] -> enc (prf_to_der (zi prf))
+     | "prfD", [h] -> let i = bytes_of_hex h in
+       (match prf_from_der i with
+        | Ok (prf, r) -> if int_of_z prf = -1 then "ABSENT prf=-1" else "OK " ^ zs prf ^ " " ^ soi (llen i - llen r)
+        | Absent -> "ABSENT" | Err -> "ERR" | Fault -> "FAULT")
+     | "kdfpE", [salt; iter; kl; prf] -> enc (pbkdf2_params_to_der (bytes_of_hex salt) (zi iter) (zi kl) (zi prf))
+     | "kdfaE", [salt; iter; kl; prf] -> enc (pbkdf2_algor_to_der (bytes_of_hex salt) (zi iter) (zi kl) (zi prf))
+     | ("kdfpD" | "kdfaD"), [h] -> let i = bytes_of_hex h in
+       pr_dec i ((if op = "kdfpD" then pbkdf2_params_from_der else pbkdf2_algor_from_der) i)
+         (fun ((((salt, iter), kl), prf), r) -> (hx salt ^ " " ^ zs iter ^ " " ^ zs kl ^ " " ^ zs prf, r))
+     | ("p2pE" | "p2aE"), [salt; iter; kl; prf; ci; iv] ->
+       let p = { p_salt = bytes_of_hex salt; p_iter = zi iter; p_keylen = zi kl; p_prf = zi prf; p_cipher = zi ci; p_iv = bytes_of_hex iv } in
+       enc ((if op = "p2pE" then pbes2_params_to_der else pbes2_algor_to_der) p)
+     | ("p2pD" | "p2aD"), [h] -> let i = bytes_of_hex h in
+       pr_dec i ((if op = "p2pD" then pbes2_params_from_der else pbes2_algor_from_der) i) (fun (p, r) -> (show_p p true, r))
+     | "p8eE", [salt; iter; kl; prf; ci; iv; en] ->
+       let p = { p_salt = bytes_of_hex salt; p_iter = zi iter; p_keylen = zi kl; p_prf = zi prf; p_cipher = zi ci; p_iv = bytes_of_hex iv } in
+       enc (p8e_to_der p (bytes_of_hex en))
+     | "p8eD", [h] -> let i = bytes_of_hex h in pr_dec i (p8e_from_der i) (fun ((p, en), r) -> (show_p p true ^ " " ^ hx en, r))
+     | "ctE", [x; y; hh; c] -> enc (sm2_ct_to_der (bytes_of_hex x) (bytes_of_hex y) (bytes_of_hex hh) (bytes_of_hex c))
+     | "ctD", [h] -> let i = bytes_of_hex h in
+       pr_dec i (sm2_ct_from_der i) (fun ((((x, y), hh), c), r) -> (hx x ^ " " ^ hx y ^ " " ^ hx hh ^ " " ^ hx c, r))
+     | "pubE", [xy] -> enc (sm2_pub_to_der (bytes_of_hex xy))
+     | "pubiE", [xy] -> enc (sm2_pubinfo_to_der (bytes_of_hex xy))
+     | "pubD", [h] -> let i = bytes_of_hex h in pr_dec i (sm2_pub_from_der pt_ok i) (fun (xy, r) -> (hx xy, r))
+     | "pubiD", [h] -> let i = bytes_of_hex h in pr_dec i (sm2_pubinfo_from_der pt_ok i) (fun (xy, r) -> (hx xy, r))
+     | "privE", [d] -> enc (sm2_priv_to_der pub_of (bytes_of_hex d))
+     | "p8E", [d] -> enc (sm2_p8_to_der pub_of (bytes_of_hex d))
+     | "privD", [h] -> let i = bytes_of_hex h in pr_dec i (sm2_priv_from_der pub_of pt_ok i) (fun ((d, xy), r) -> (hx d ^ " " ^ hx xy, r))
+     | "p8D", [h] -> let i = bytes_of_hex h in
+       pr_dec i (sm2_p8_from_der pub_of pt_ok i) (fun (((d, xy), at), r) -> (hx d ^ " " ^ hx xy ^ " " ^ attrs_s at, r))
+     | "p8seal", [d; pass; salt; iv; iter; kl; prf] ->
+       (match sm2_p8_to_der pub_of (bytes_of_hex d) with
+        | Ok info ->
+          let key = kdf (bytes_of_hex pass) (bytes_of_hex salt) (zi iter) in
+          let en = cbcenc_sm4 key (bytes_of_hex iv) info in
+          let p = { p_salt = bytes_of_hex salt; p_iter = zi iter; p_keylen = zi kl; p_prf = zi prf; p_cipher = z_of_int 20; p_iv = bytes_of_hex iv } in
+          enc (p8e_to_der p en)
+        | _ -> "ERR")
+     | "p8sealraw", [info; pass; salt; iv; iter; kl; prf] ->
+       let key = kdf (bytes_of_hex pass) (bytes_of_hex salt) (zi iter) in
+       let en = cbcenc_sm4 key (bytes_of_hex iv) (bytes_of_hex info) in
+       let p = { p_salt = bytes_of_hex salt; p_iter = zi iter; p_keylen = zi kl; p_prf = zi prf; p_cipher = z_of_int 20; p_iv = bytes_of_hex iv } in
+       enc (p8e_to_der p en)
+     | "p8open", [pass; h] -> let i = bytes_of_hex h in
+       (match sm2_p8_open pub_of pt_ok kdf cbcdec_sm4 (bytes_of_hex pass) i with
+        | Ok (((d, xy), at), r) -> "OK " ^ hx d ^ " " ^ hx xy ^ " " ^ attrs_s at ^ " " ^ soi (llen i - llen r)
+        | Fault -> "FAULT" | _ -> "ERR")
+     | "pemW", [name; d] -> (match pem_write (bytes_of_hex name) (bytes_of_hex d) with Some t -> "OK " ^ hx t | None -> "ERR")
+     | "pemR", [name; mx; t] -> let i = bytes_of_hex t in
+       (match pem_read (bytes_of_hex name) i (n_of_int (int_of_string mx)) with
+        | Ok (d, r) -> "OK " ^ hx d ^ " " ^ soi (llen i - llen r) | Absent -> "ABSENT" | Err -> "ERR" | Fault -> "FAULT")
+     | _ -> "ERR bad-op")
   | _ -> "ERR bad-op"
 
 let () = main_loop handle
